@@ -637,6 +637,11 @@ func ruleSymAncestry(c *Ctx) []*Obligation {
 			return isFresh(x.X, depth-1)
 		case *ssa.Const:
 			return x.Value == nil
+		case *ssa.UnOp:
+			// the node's own ancestry field: whatever it holds is the node's
+			if fa, ok := x.X.(*ssa.FieldAddr); ok && x.Op == token.MUL && fieldName(fa.X.Type(), fa.Field) == "ancestry" && fa.X == ssa.Value(fn.Params[0]) {
+				return true
+			}
 		case *ssa.Phi:
 			for _, e := range x.Edges {
 				if !isFresh(e, depth-1) {
